@@ -556,3 +556,45 @@ pub fn held_sweep(shape: &str, n: usize, chords: usize, seed: u64, samples: usiz
     HOLD_ID.store(usize::MAX, Relaxed);
     bad
 }
+
+/// Very many parallel adoptions of ONE pair: a <-> b fully recorded, `a` owning 2^pow + 3
+/// strong handles to `b` (taken through the raw API, each recorded with adopt_unchecked).
+/// When the outside handles are gone the pair must be collected.
+pub struct HugeAdoptOut {
+    pub pow: u32,
+    pub destroyed: usize,
+    pub count_errors: usize,
+    pub ms: u128,
+}
+
+pub fn huge_adopt(pow: u32) -> HugeAdoptOut {
+    let t0 = std::time::Instant::now();
+    let seen: &'static [std::sync::atomic::AtomicU8] = Box::leak((0..2).map(|_| std::sync::atomic::AtomicU8::new(0)).collect::<Vec<_>>().into_boxed_slice());
+    DESTROYED.store(0, Relaxed);
+    let a = Rc::new(Big { id: 0, seen, slots: RefCell::new(Vec::new()) });
+    let b = Rc::new(Big { id: 1, seen, slots: RefCell::new(Vec::new()) });
+    link(&b, Rc::clone(&a), false);
+    let n: usize = (1usize << pow) + 3;
+    let pb = Rc::as_ptr(&b);
+    for _ in 0..n {
+        unsafe {
+            Rc::increment_strong_count(pb);
+            Rc::adopt_unchecked(&a, &b);
+        }
+    }
+    let (wa, wb) = (Rc::downgrade(&a), Rc::downgrade(&b));
+    let mut count_errors = 0;
+    if wb.strong_count() != n + 1 || wa.strong_count() != 2 {
+        count_errors += 1;
+    }
+    drop(b);
+    if wb.strong_count() != n || seen[1].load(Relaxed) != 0 {
+        count_errors += 1;
+    }
+    drop(a);
+    let destroyed = DESTROYED.load(Relaxed);
+    if destroyed == 2 && (wa.upgrade().is_some() || wb.upgrade().is_some() || wa.strong_count() != 0 || wb.strong_count() != 0) {
+        count_errors += 1;
+    }
+    HugeAdoptOut { pow, destroyed, count_errors, ms: t0.elapsed().as_millis() }
+}
